@@ -439,9 +439,14 @@ def _class_attr_mutated(cls, nm):
           "netlist state; W2 the opened output is closed on every normal path of run (must-dataflow over helper calls); W4 no clock / "
           "random / id / hash source other than the EDIF timestamp, no emission loop over a set; W5 accumulators live on the composer "
           "instance (no mutable class attributes or module globals). Decides absence of side effects and of nondeterminism sources; "
-          "byte-equality of repeated outputs in general is not decided.")
+          "byte-equality of repeated outputs in general is not decided. W6 the EDIF writer's dependency sort takes its roots one at a time in input order (so an already ordered netlist is listed in the same order again).")
 def check_c16(ctx, R):
     P = ctx.P
+    # W6: the order in which the EDIF writer lists cells and libraries is a function of the netlist's own order (same rule as B6 of C03:
+    # in particular the dependency sort takes its roots one at a time, in the order given — otherwise each pass reorders independent cells)
+    from .edif_roundtrip import check_dependency_order
+    R.rule("W6", "repeatable order: the dependency sort of the EDIF writer is the reviewed depth-first post-order over the roots in input order")
+    check_dependency_order(ctx, R, "W6")
     R.rule("W1", "effect allow-list over everything reachable from run()")
     R.rule("W2", "open/close pairing on every normal path of run()")
     R.rule("W4", "nondeterminism sources")
